@@ -587,7 +587,19 @@ pub fn recheck_typed(case: &Value) -> Vec<String> {
 // C17: print -> parse round trip
 
 const RT_CLASSES: [&str; 4] = ["a.b.Err", "x.Y$Z", "\u{e9}.\u{dc}", "Caused"];
-const RT_MESSAGES: [Option<&str>; 7] = [None, Some("m"), Some("x: y"), Some("Caused by: z"), Some("at a.b(c:1)"), Some("\u{e9}"), Some("two  spaces (in) it")];
+const RT_MESSAGES: [Option<&str>; 10] = [
+    None,
+    Some("m"),
+    Some("x: y"),
+    Some("Caused by: z"),
+    Some("at a.b(c:1)"),
+    Some("\u{e9}"),
+    Some("two  spaces (in) it"),
+    // characters that some notion of "line" or "white space" treats specially, in the interior of a message
+    Some("ls\u{2028}ps\u{2029}nel\u{85}end"),
+    Some("vt\u{b}ff\u{c}tab\tcr\rnbsp\u{a0}end"),
+    Some("bs\\q\"x"),
+];
 const RT_FCLASSES: [&str; 2] = ["a.b.C", "x.Y$1"];
 const RT_METHODS: [&str; 3] = ["m", "<init>", "\u{e9}"];
 const RT_FILES: [&str; 4] = ["F.java", "Unknown Source", "<unknown>", "F(1).kt"];
@@ -640,8 +652,12 @@ pub fn run_c17(tier: Tier) -> i32 {
     let frames = rt_frames();
     let nf = frames.len();
     let mut thr: Vec<(String, Option<String>)> = Vec::new();
-    for c in RT_CLASSES {
-        for m in RT_MESSAGES {
+    for (ci, c) in RT_CLASSES.iter().enumerate() {
+        for (mi, m) in RT_MESSAGES.iter().enumerate() {
+            // the three special-character messages: with the first class only
+            if mi >= 7 && ci > 0 {
+                continue;
+            }
             thr.push((c.to_string(), m.map(|s| s.to_string())));
         }
     }
@@ -740,7 +756,7 @@ pub fn run_c17(tier: Tier) -> i32 {
         prop: "C17",
         tier,
         level: "model_checking",
-        rule: format!("throwables: 4 classes (with $, non-ASCII, 'Caused') x 7 messages (none, plain, 'x: y', 'Caused by: z', 'at a.b(c:1)', non-ASCII, inner double space and parentheses) = {}; frames (+ 2 whose class carries a module prefix containing '/'): 2 classes x 3 methods (m, <init>, non-ASCII) x 4 files (F.java, 'Unknown Source', '<unknown>', 'F(1).kt') x lines {{0,1,2^64-1}} = {}; traces: top-level exception present/absent x 0..2 frames (all first frames; second frame {}), one level with 20 frames, cause chains of depth 0..={} over a sub-family of cause levels; frames without file: text fix-point only. Oracle: parse(print(t)) == t and print(parse(print(t))) == print(t); single frames (3 indentations) and throwables likewise. distinct = distinct traces", nthr, nf, if t { "all" } else { "every 5th" }, max_depth),
+        rule: format!("throwables: 4 classes (with $, non-ASCII, 'Caused') x 10 messages (none, plain, 'x: y', 'Caused by: z', 'at a.b(c:1)', non-ASCII, inner double space and parentheses, interior U+2028/U+2029/U+0085, interior VT/FF/TAB/CR/NBSP, backslash and quote) = {}; frames (+ 2 whose class carries a module prefix containing '/'): 2 classes x 3 methods (m, <init>, non-ASCII) x 4 files (F.java, 'Unknown Source', '<unknown>', 'F(1).kt') x lines {{0,1,2^64-1}} = {}; traces: top-level exception present/absent x 0..2 frames (all first frames; second frame {}), one level with 20 frames, cause chains of depth 0..={} over a sub-family of cause levels; frames without file: text fix-point only. Oracle: parse(print(t)) == t and print(parse(print(t))) == print(t); single frames (3 indentations) and throwables likewise. distinct = distinct traces", nthr, nf, if t { "all" } else { "every 5th" }, max_depth),
         bounds: json!({"throwables": nthr, "frames": nf, "max_cause_depth": max_depth}),
         assumptions: vec!["frames carry a file (a None file prints as <unknown> and parses back as Some(\"<unknown>\"): only the text fix-point is checked for it)".into(), "cause levels carry an exception; the trace with neither exception nor frames is excluded (try_parse defines it as not a trace)".into()],
         trusted_base: vec!["rustc/std".into(), "PartialEq of StackTrace / StackFrame / Throwable".into()],
